@@ -69,7 +69,8 @@ def family_cases(specs):
 
 def extra_c20(pid, tier, seed, workdir, known, write_replay):
     depths = [4, 8, 12, 16, 20, 24, 32, 48, 64] if tier == "quick" else [2, 4, 6, 8, 10, 12, 14, 16, 18, 20, 22, 24, 28, 32, 40, 48, 56, 64]
-    specs = [(f, n) for f in ("chain", "chainv", "diamond", "nested") for n in depths] + [("fanout", n) for n in (8, 64, 200)]
+    specs = [(f, n) for f in ("chain", "chainv", "diamond", "diamondpure", "diamondvoid", "nested") for n in depths] + [("fanout", n) for n in (8, 64, 200)] + \
+            [("nestedarr", n) for n in (4, 8, 12, 16, 20, 24)] + [("nesteddeep", n) for n in (16, 17, 32, 64)]
     cases = family_cases(specs)
     timeout_s = 20
     results = []
@@ -115,9 +116,9 @@ PROPS["C03"] = dict(
               "WgslVerif.callsEarlierB_sound", "WgslVerif.reach_iff_reachS", "WgslVerif.entryUses_iff",
               "WgslVerif.mem_callsOf_evFn", "WgslVerif.mem_usesOf_evFn"],
     streams=lambda tier, seed: (
-        [("fixtures",), ("gen", "callgraph", seed, 500), ("gen", "general", seed, 300), ("gen", "textures", seed, 100),
+        [("fixtures",), ("names",), ("gen", "callgraph", seed, 500), ("gen", "general", seed, 300), ("gen", "textures", seed, 100),
          ("gen", "entries", seed, 100), ("family", "diamond", 5), ("family", "fanout", 12), ("family", "chainv", 9), ("pc", 3)] if tier == "quick" else
-        [("fixtures",), ("gen", "callgraph", seed, 12000), ("gen", "general", seed, 8000), ("gen", "textures", seed, 2000),
+        [("fixtures",), ("names",), ("pc", 4), ("gen", "callgraph", seed, 12000), ("gen", "general", seed, 8000), ("gen", "textures", seed, 2000),
          ("gen", "entries", seed, 2000), ("gen", "scale", seed, 400), ("family", "diamond", 7), ("family", "fanout", 40)]),
     opts=q_opts([0, 48], [0, 48, 21, 90]),
     rule="cases: fixtures + structured generator profiles callgraph/general/textures/entries (helper DAGs: chains, diamonds, shared helpers, "
@@ -153,8 +154,9 @@ PROPS["C08"] = dict(
     theorems=["WgslVerif.C08", "WgslVerif.C08_mem", "WgslVerif.C08_nodup", "WgslVerif.structWanted_iff",
               "WgslVerif.globalVariableTypes_mem", "WgslVerif.typeArenaOkB_sound"],
     streams=lambda tier, seed: (
-        [("fixtures",), ("types",), ("gen", "structs", seed, 500), ("gen", "general", seed, 300), ("gen", "vertex", seed, 150), ("gen", "entries", seed, 100)] if tier == "quick" else
-        [("fixtures",), ("types",), ("gen", "structs", seed, 12000), ("gen", "general", seed, 6000), ("gen", "vertex", seed, 3000), ("gen", "entries", seed, 2000), ("gen", "scale", seed, 300)]),
+        [("fixtures",), ("types",), ("names",), ("variants",), ("family", "nesteddeep", 17), ("family", "nesteddeep", 40), ("family", "nestedarr", 12),
+         ("gen", "structs", seed, 500), ("gen", "general", seed, 300), ("gen", "vertex", seed, 150), ("gen", "entries", seed, 100)] if tier == "quick" else
+        [("fixtures",), ("types",), ("names",), ("variants",), ("family", "nesteddeep", 17), ("family", "nesteddeep", 64), ("family", "nestedarr", 12), ("gen", "structs", seed, 12000), ("gen", "general", seed, 6000), ("gen", "vertex", seed, 3000), ("gen", "entries", seed, 2000), ("gen", "scale", seed, 300)]),
     opts=q_opts([4, 37, 6, 52], [4, 37, 70, 6, 3, 52, 95]),
     rule="cases: fixtures + generator profiles structs/general/vertex/entries (structs only in uniform/storage/private/workgroup variables, through arrays, nested arrays, "
          "nested structs, only as vertex input, vertex input and storage, fragment input, entry result, function-local, unused); non-trivial = the module has at least one struct type; "
@@ -182,8 +184,8 @@ PROPS["C04"] = dict(
     theorems=["WgslVerif.C04", "WgslVerif.groupFacts_spec", "WgslVerif.layoutFields_spec", "WgslVerif.bindEntries_spec",
               "WgslVerif.layoutEntries_binding", "WgslVerif.C11_ok_content", "WgslVerif.C11_exec"],
     streams=lambda tier, seed: (
-        [("fixtures",), ("gen", "bindings", seed, 300), ("gen", "general", seed, 300), ("gen", "textures", seed, 150), ("c11rand", seed, 200)] if tier == "quick" else
-        [("fixtures",), ("gen", "bindings", seed, 6000), ("gen", "general", seed, 6000), ("gen", "textures", seed, 3000), ("c11rand", seed, 4000), ("gen", "scale", seed, 300)]),
+        [("fixtures",), ("names",), ("gen", "bindings", seed, 300), ("gen", "general", seed, 300), ("gen", "textures", seed, 150), ("c11rand", seed, 200)] if tier == "quick" else
+        [("fixtures",), ("names",), ("gen", "bindings", seed, 6000), ("gen", "general", seed, 6000), ("gen", "textures", seed, 3000), ("c11rand", seed, 4000), ("gen", "scale", seed, 300)]),
     opts=q_opts([0, 48], [0, 48, 21, 90]),
     rule="cases: fixtures + generator profiles bindings/general/textures + random binding multisets (1..8 groups, sparse / unordered / u32-extreme binding indices, declaration order "
          "unrelated to index order, all resource kinds); non-trivial = at least one bound variable and generation succeeded; distinct = distinct WGSL text",
@@ -195,8 +197,8 @@ PROPS["C13"] = dict(
     lean_modules=["WgslVerif.Props.C13"],
     theorems=["WgslVerif.C13", "WgslVerif.C13_stages_used", "WgslVerif.C13_stages_unused", "WgslVerif.C03_present", "WgslVerif.C03_entryStages"],
     streams=lambda tier, seed: (
-        [("fixtures",), ("pc", 4), ("gen", "general", seed, 400), ("gen", "entries", seed, 150), ("gen", "callgraph", seed, 150)] if tier == "quick" else
-        [("fixtures",), ("pc", 5), ("gen", "general", seed, 15000), ("gen", "entries", seed, 4000), ("gen", "callgraph", seed, 4000)]),
+        [("fixtures",), ("names",), ("pc", 4), ("gen", "general", seed, 400), ("gen", "entries", seed, 150), ("gen", "callgraph", seed, 150)] if tier == "quick" else
+        [("fixtures",), ("names",), ("pc", 5), ("gen", "general", seed, 15000), ("gen", "entries", seed, 4000), ("gen", "callgraph", seed, 4000)]),
     opts=q_opts([0, 48], [0, 48, 21, 90]),
     rule="cases: fixtures + EVERY sequence of entry-point stages up to length 4 (5 thorough) x {unused, used by first / last / middle entry, through helper chains, inside continuing blocks} x 7 push-constant types "
          "+ generator profiles general/entries/callgraph (push constants of scalar, vector, matrix, padded struct, array type; used directly, through helper chains, "
@@ -209,8 +211,8 @@ PROPS["C14"] = dict(
     lean_modules=["WgslVerif.Props.C14"],
     theorems=["WgslVerif.C14", "WgslVerif.fragmentTargetCount_eq", "WgslVerif.C14_legacy_counterexample", "WgslVerif.vertexEntryStructs_length", "WgslVerif.vertexInputOf_isSome"],
     streams=lambda tier, seed: (
-        [("fixtures",), ("gen", "entries", seed, 500), ("gen", "general", seed, 300), ("gen", "vertex", seed, 200)] if tier == "quick" else
-        [("fixtures",), ("gen", "entries", seed, 12000), ("gen", "general", seed, 6000), ("gen", "vertex", seed, 4000)]),
+        [("fixtures",), ("names",), ("variants",), ("gen", "entries", seed, 500), ("gen", "general", seed, 300), ("gen", "vertex", seed, 200)] if tier == "quick" else
+        [("fixtures",), ("names",), ("variants",), ("gen", "entries", seed, 12000), ("gen", "general", seed, 6000), ("gen", "vertex", seed, 4000)]),
     opts=q_opts([0, 48], [0, 48, 21, 90]),
     rule="cases: fixtures + generator profiles entries/general/vertex (0..3 entry points per stage, arbitrary names incl. non-ASCII, workgroup sizes from literals and constants, "
          "fragment results: none / bare location / builtin / struct with dense or sparse locations and builtins); non-trivial = at least one entry point; distinct = distinct WGSL text",
@@ -222,8 +224,8 @@ PROPS["C15"] = dict(
     lean_modules=["WgslVerif.Props.C15"],
     theorems=["WgslVerif.C15", "WgslVerif.C15_legacy_counterexample", "WgslVerif.C15_skip", "WgslVerif.constTypeAndValue_spec"],
     streams=lambda tier, seed: (
-        [("fixtures",), ("gen", "consts", seed, 600), ("gen", "general", seed, 300)] if tier == "quick" else
-        [("fixtures",), ("gen", "consts", seed, 15000), ("gen", "general", seed, 6000)]),
+        [("fixtures",), ("names",), ("gen", "consts", seed, 600), ("gen", "general", seed, 300)] if tier == "quick" else
+        [("fixtures",), ("names",), ("gen", "consts", seed, 15000), ("gen", "general", seed, 6000)]),
     opts=q_opts([0, 48], [0, 48, 21, 90]),
     rule="cases: fixtures + generator profiles consts/general (explicit and inferred types, constant expressions, references to other constants, negative values, extremes, subnormals, "
          "-0.0, f64, bool, non-scalar constants); non-trivial = at least one module constant; distinct = distinct WGSL text",
@@ -235,8 +237,8 @@ PROPS["C12"] = dict(
     lean_modules=["WgslVerif.Props.C12"],
     theorems=["WgslVerif.C12", "WgslVerif.C12_required_resolves", "WgslVerif.C12_optional_resolves", "WgslVerif.overrideEntry_spec", "WgslVerif.overrideFieldType_spec", "WgslVerif.mapGet_unique"],
     streams=lambda tier, seed: (
-        [("fixtures",), ("gen", "consts", seed, 600), ("gen", "general", seed, 300), ("gen", "entries", seed, 100)] if tier == "quick" else
-        [("fixtures",), ("gen", "consts", seed, 15000), ("gen", "general", seed, 6000), ("gen", "entries", seed, 2000)]),
+        [("fixtures",), ("names",), ("variants",), ("gen", "consts", seed, 600), ("gen", "general", seed, 300), ("gen", "entries", seed, 100)] if tier == "quick" else
+        [("fixtures",), ("names",), ("variants",), ("gen", "consts", seed, 15000), ("gen", "general", seed, 6000), ("gen", "entries", seed, 2000)]),
     opts=q_opts([0, 48], [0, 48, 21, 90]),
     rule="cases: fixtures + generator profiles consts/general/entries (overrides of bool/i32/u32/f32, with and without default, with and without @id, defaults depending on other overrides); "
          "non-trivial = at least one override; distinct = distinct WGSL text",
@@ -318,11 +320,11 @@ def classify_and_report(pid, items, known, write_replay, case_by_id):
 def extra_c02(pid, tier, seed, workdir, known, write_replay):
     """the REAL wgpu-core 24.0.5 shader-interface validation on the REAL generated layouts (harness oracle_wgpu)"""
     n = 1 if tier == "quick" else 12
-    streams = [("fixtures",), ("gen", "textures", seed, 250 * n), ("gen", "general", seed, 250 * n), ("gen", "callgraph", seed, 100 * n), ("gen", "bindings", seed, 100 * n)]
+    streams = [("fixtures",), ("names",), ("gen", "textures", seed, 250 * n), ("gen", "general", seed, 250 * n), ("gen", "callgraph", seed, 100 * n), ("gen", "bindings", seed, 100 * n)]
     out, case_by_id = run_tool_on_streams([os.path.join(BIN, "oracle_wgpu")], streams, workdir, "oracle")
     # the same with validation on (WriteOptions.validate = Some): generation may take another path there
     out48, _ = run_tool_on_streams([os.path.join(BIN, "oracle_wgpu"), "--opts", "48"],
-                                   [("fixtures",), ("gen", "general", seed, 150 * n), ("gen", "callgraph", seed, 100 * n), ("gen", "textures", seed, 80 * n)], workdir, "oracle48")
+                                   [("fixtures",), ("names",), ("gen", "general", seed, 150 * n), ("gen", "callgraph", seed, 100 * n), ("gen", "textures", seed, 80 * n)], workdir, "oracle48")
     out = out + "\n" + out48
     items, counts = [], {}
     ncase = 0
@@ -408,8 +410,8 @@ PROPS["C02"] = dict(
     lean_modules=["WgslVerif.Props.C02"],
     theorems=["WgslVerif.C02_partial", "WgslVerif.C02_counterexample", "WgslVerif.bindingType_accepted", "WgslVerif.classArm_spec", "WgslVerif.viewDim_matches"],
     streams=lambda tier, seed: (
-        [("fixtures",), ("gen", "textures", seed, 400), ("gen", "general", seed, 300), ("gen", "bindings", seed, 100)] if tier == "quick" else
-        [("fixtures",), ("gen", "textures", seed, 8000), ("gen", "general", seed, 6000), ("gen", "bindings", seed, 2000), ("gen", "scale", seed, 200)]),
+        [("fixtures",), ("names",), ("gen", "textures", seed, 400), ("gen", "general", seed, 300), ("gen", "bindings", seed, 100)] if tier == "quick" else
+        [("fixtures",), ("names",), ("gen", "textures", seed, 8000), ("gen", "general", seed, 6000), ("gen", "bindings", seed, 2000), ("gen", "scale", seed, 200)]),
     opts=q_opts([0, 48], [0, 48, 21, 90]),
     extra=extra_c02,
     rule="cases: fixtures + generator profiles textures/general/bindings: uniform / storage(read, read_write) buffers of struct, array, runtime array, scalar, vector, matrix type; every sampled / "
@@ -425,8 +427,8 @@ PROPS["C05"] = dict(
     lean_modules=["WgslVerif.Props.C05"],
     theorems=["WgslVerif.C05", "WgslVerif.C05_complete", "WgslVerif.C05_sound", "WgslVerif.find_struct_by_name", "WgslVerif.offsetAsserts_eq"],
     streams=lambda tier, seed: (
-        [("fixtures",), ("types",), ("gen", "structs", seed, 400), ("gen", "general", seed, 200), ("gen", "vertex", seed, 100)] if tier == "quick" else
-        [("fixtures",), ("types",), ("gen", "structs", seed, 10000), ("gen", "general", seed, 5000), ("gen", "vertex", seed, 2000), ("gen", "scale", seed, 300)]),
+        [("fixtures",), ("types",), ("names",), ("variants",), ("gen", "structs", seed, 400), ("gen", "general", seed, 200), ("gen", "vertex", seed, 100)] if tier == "quick" else
+        [("fixtures",), ("types",), ("names",), ("variants",), ("gen", "structs", seed, 10000), ("gen", "general", seed, 5000), ("gen", "vertex", seed, 2000), ("gen", "scale", seed, 300)]),
     opts=q_opts([2, 6, 18, 34, 1, 50], [2, 6, 18, 34, 1, 50, 15, 47, 95]),
     rule="cases: fixtures + generator profiles structs/general/vertex (scalars, vec2/3/4, all matrix shapes, fixed arrays incl. of vec3/matrices/structs, nested structs, atomics, "
          "vec3-then-scalar packing, @align/@size) x 3 representations with bytemuck host-shareable on (and off); non-trivial = at least one struct emitted; distinct = distinct WGSL text",
@@ -439,9 +441,9 @@ PROPS["C06"] = dict(
     lean_modules=["WgslVerif.Props.C06", "WgslVerif.Props.C06Repr"],
     theorems=["WgslVerif.C06", "WgslVerif.C06_denote", "WgslVerif.C06_repr", "WgslVerif.C06_fields", "WgslVerif.C06'"],
     streams=lambda tier, seed: (
-        [("fixtures",), ("types",), ("gen", "structs", seed, 400), ("gen", "general", seed, 200), ("gen", "vertex", seed, 100)] if tier == "quick" else
-        [("fixtures",), ("types",), ("gen", "structs", seed, 10000), ("gen", "general", seed, 5000), ("gen", "vertex", seed, 2000), ("gen", "scale", seed, 300)]),
-    opts=q_opts([4, 20, 36, 52, 18, 22], [4, 20, 36, 52, 68, 84, 18, 22, 2, 34]),
+        [("fixtures",), ("types",), ("names",), ("variants",), ("gen", "structs", seed, 400), ("gen", "general", seed, 200), ("gen", "vertex", seed, 100)] if tier == "quick" else
+        [("fixtures",), ("types",), ("names",), ("variants",), ("gen", "structs", seed, 10000), ("gen", "general", seed, 5000), ("gen", "vertex", seed, 2000), ("gen", "scale", seed, 300)]),
+    opts=q_opts([4, 20, 36, 52, 18, 22, 17], [4, 20, 36, 52, 68, 84, 18, 22, 2, 34, 17, 33]),
     rule="cases: fixtures + generator profiles structs/general/vertex under the three representations (encase on so that runtime arrays are emitted); all member types and nestings "
          "(arrays of arrays, arrays of structs, structs in structs, atomics, trailing runtime arrays, interleaved builtins); non-trivial = at least one struct emitted; distinct = distinct WGSL text",
     trusted_base=COMMON_TRUSTED + ["matrix denotation convention: matCxR<f32> = dims [R, C] in all representations (pinned by the repo's fixtures)"],
@@ -452,8 +454,8 @@ PROPS["C16"] = dict(
     lean_modules=["WgslVerif.Props.C16"],
     theorems=["WgslVerif.C16", "WgslVerif.C16_literal_roundtrip", "WgslVerif.C16_include_only_source", "WgslVerif.RustLex.unesc_of_esc"],
     streams=lambda tier, seed: (
-        [("fixtures",), ("gen", "unicode", seed, 400), ("gen", "general", seed, 150), ("genpath", "unicode", seed, 100), ("genpath", "general", seed, 100)] if tier == "quick" else
-        [("fixtures",), ("gen", "unicode", seed, 10000), ("gen", "general", seed, 3000), ("genpath", "unicode", seed, 2000), ("genpath", "general", seed, 2000)]),
+        [("fixtures",), ("names",), ("gen", "unicode", seed, 400), ("gen", "general", seed, 150), ("genpath", "unicode", seed, 100), ("genpath", "general", seed, 100)] if tier == "quick" else
+        [("fixtures",), ("names",), ("gen", "unicode", seed, 10000), ("gen", "general", seed, 3000), ("genpath", "unicode", seed, 2000), ("genpath", "general", seed, 2000)]),
     opts=q_opts([0, 48], [0, 48, 21, 90]),
     rule="cases: fixtures + generator profile unicode (quotes, backslashes, braces, CR/LF, NUL and other control characters, non-ASCII and non-BMP text in comments and identifiers) + general, "
          "embedded and with include paths (spaces, backslashes, quotes, non-ASCII, empty); every real literal token is unescaped by RustLex.unescapeToken AND decoded by syn, both compared with the source; "
@@ -503,7 +505,7 @@ def extra_c16(pid, tier, seed, workdir, known, write_replay):
 
 
 PROPERTY_FAULTS = ["absent", "exit1-after-drain", "exit1-no-read", "kill-self", "kill-before-read", "kill-after-partial-output", "exit1-after-partial-output",
-                   "exit0-no-read-empty", "exit0-drain-empty", "slow-ok", "real"]
+                   "exit0-no-read-empty", "exit0-drain-empty", "slow-ok", "fail-once-partial-then-real", "exit1-noisy-stderr-0", "exit1-noisy-stderr-1", "real"]
 
 
 def extra_c19(pid, tier, seed, workdir, known, write_replay):
@@ -729,8 +731,8 @@ PROPS["C07"] = dict(
               "WgslVerif.getVertexInputStructs_mem", "WgslVerif.locatedMembers_spec",
               "WgslVerif.vertexInputOf_name", "WgslVerif.dedupByName_sub", "WgslVerif.vertexEntryStructs_length"],
     streams=lambda tier, seed: (
-        [("fixtures",), ("types", 2, seed), ("gen", "vertex", seed, 500), ("gen", "general", seed, 200), ("gen", "entries", seed, 100)] if tier == "quick" else
-        [("fixtures",), ("types",), ("gen", "vertex", seed, 12000), ("gen", "general", seed, 5000), ("gen", "entries", seed, 2000)]),
+        [("fixtures",), ("names",), ("variants",), ("types", 2, seed), ("gen", "vertex", seed, 500), ("gen", "general", seed, 200), ("gen", "entries", seed, 100)] if tier == "quick" else
+        [("fixtures",), ("names",), ("variants",), ("types",), ("gen", "vertex", seed, 12000), ("gen", "general", seed, 5000), ("gen", "entries", seed, 2000)]),
     opts=q_opts([0, 17, 37, 48], [0, 17, 37, 48, 53, 22]),
     extra=extra_c07,
     rule="cases: fixtures + generator profiles vertex/general/entries (input structs with f32/i32/u32 scalars and vec2-4, arbitrary non-dense and unordered location numbers, builtins "
@@ -836,7 +838,7 @@ PROPS["C10"] = dict(
     theorems=["WgslVerif.C10_leaf", "WgslVerif.C10_struct_algorithm", "WgslVerif.C10_offsets_partial"],
     driver_props=["C10"],
     streams=lambda tier, seed: [("gen", "structs", seed, 100 if tier == "quick" else 3000), ("fixtures",), ("types",)],
-    opts=q_opts([20, 68], [20, 22, 68]),
+    opts=q_opts([20, 68, 21], [20, 22, 68, 21, 23]),
     extra=extra_c10,
     rule="cases: generator profiles structs/general under encase + glam; every emitted ShaderType struct is constructed with sentinel values, written through the REAL "
          "encase::StorageBuffer (compiled against encase 0.10 + glam 0.29) and the byte length and the offset of every field are compared with (a) the Lean transcription Ext.Encase and "
@@ -862,7 +864,7 @@ C01_SECONDARY = [r"the trait `Copy` cannot be implemented", r"cannot find type",
 def extra_c01(pid, tier, seed, workdir, known, write_replay):
     """rustc (cargo check) on the real generated modules against the real wgpu 24 / bytemuck / encase / glam / serde (harness `batch check`)"""
     n = 1 if tier == "quick" else 10
-    cases = write_stream_file([("fixtures",), ("types", 9 if tier == "quick" else 1, seed), ("gen", "structs", seed, 20 * n), ("gen", "general", seed, 25 * n), ("gen", "vertex", seed, 12 * n),
+    cases = write_stream_file([("fixtures",), ("names", 4 if tier == "quick" else 1, seed), ("types", 9 if tier == "quick" else 1, seed), ("gen", "structs", seed, 20 * n), ("gen", "general", seed, 25 * n), ("gen", "vertex", seed, 12 * n),
                                ("gen", "consts", seed, 12 * n), ("gen", "entries", seed, 12 * n), ("gen", "textures", seed, 8 * n), ("gen", "unicode", seed, 8 * n)],
                               os.path.join(workdir, "c01.cases"))
     case_by_id = {}
@@ -895,7 +897,7 @@ def extra_c01(pid, tier, seed, workdir, known, write_replay):
                 benign[t] = benign.get(t, 0) + 1
         if f[5].startswith("fail:"):
             static_spec.append((key, f[5]))
-    rustc = {}
+    modules = {}
     if not os.path.exists(out_path):
         items.append(("rustc#harness", "batch check produced no result: " + b.stdout[-300:], "", False))
     else:
@@ -905,48 +907,30 @@ def extra_c01(pid, tier, seed, workdir, known, write_replay):
                     counts["summary"] = line.strip()[:200]
                 continue
             t = parse_sexp(line)[0]
-            cid, opt, verdict = sx(t[1]), t[2], t[3]
+            cid, opt, verdict = sx(t[1]), int(t[2]), t[3]
             nmod += 1
             if verdict == "ok":
                 counts["ok"] = counts.get("ok", 0) + 1
-                rustc[(cid, int(opt))] = ("ok", set(), "")
+                modules[(cid, opt)] = ("ok", [])
                 continue
             kind = verdict[0]
             if kind == "permitted":
                 counts["permitted"] = counts.get("permitted", 0) + 1
-                rustc[(cid, int(opt))] = ("permitted", set(), "")
-                continue
-            if kind == "gen":
-                counts["gen:" + sx(verdict[1])] = counts.get("gen:" + sx(verdict[1]), 0) + 1
-                continue            # the generator did not return Ok: outside this property
-            if kind == "syntax":
-                items.append(("rustc#syntax-error", f"option set {opt}: the generated text does not parse: {sx(verdict[1])[:200]}", cid, True))
-                rustc[(cid, int(opt))] = ("rejected", {"rustc#syntax-error"}, sx(verdict[1])[:200])
-                continue
-            msgs = [(sx(e[0]), sx(e[1]), sx(e[2])) for e in verdict[1:]]
-            sigs = set()
-            unknown = []
-            for code, msg, srcline in msgs:
-                hit = next((sig for pat, sig in C01_PATTERNS if re.search(pat, msg)), None)
-                if hit is None and re.search(r"cannot find type", msg) and re.match(r"\s*impl \w+ \{", srcline):
-                    hit = "rustc#vertex-input-struct-not-emitted"
-                if hit:
-                    sigs.add(hit)
-                elif not any(re.search(p, msg) for p in C01_SECONDARY):
-                    unknown.append(f"{code} {msg} @ {srcline}"[:160])
-            rustc[(cid, int(opt))] = ("rejected", set(sigs) if sigs else {"rustc#unclassified"}, "; ".join(f"{c} {m_} @ {l_}" for c, m_, l_ in msgs[:3]))
-            if not sigs:
-                # a rejected module is reported whatever its messages look like (follow-up messages alone do not excuse it)
-                first = unknown[0] if unknown else "; ".join(f"{c} {m_} @ {l_}" for c, m_, l_ in msgs[:2])[:260]
-                items.append(("rustc#unclassified", f"option set {opt}: rustc rejects the module: {first}", cid, True))
-            for s_ in sigs:
-                counts[s_] = counts.get(s_, 0) + 1
-                items.append((s_, f"option set {opt}: rustc rejects the module: " + "; ".join(f"{c} {m_}" for c, m_, _ in msgs[:2])[:260], cid, True))
-    # two-sided validation of the Lean transcription against rustc, and the theorems' conclusions on the real output
-    import c01_static
-    scounts, sproblems = c01_static.compare(pred, rustc)
-    for sig, detail, cid, opt, is_spec in sproblems:
-        items.append((sig, detail, cid, is_spec))
+                modules[(cid, opt)] = ("permitted", [])
+            elif kind == "gen":
+                counts["gen:" + sx(verdict[1])] = counts.get("gen:" + sx(verdict[1]), 0) + 1      # the generator did not return Ok: outside this property
+            elif kind == "syntax":
+                counts["syntax"] = counts.get("syntax", 0) + 1
+                modules[(cid, opt)] = ("syntax", [("syntax", sx(verdict[1])[:200], "")])
+            else:
+                counts["reject"] = counts.get("reject", 0) + 1
+                modules[(cid, opt)] = ("reject", [(sx(e[0]), sx(e[1]), sx(e[2])) for e in verdict[1:]])
+    # rustc's verdict per module held against Ext.RustStatic's prediction for the same module (both ways); rejected modules are
+    # classified by the predicted issue, not by the wording of rustc's messages (checklib/c01_classify.py)
+    import c01_classify
+    scounts, sitems = c01_classify.analyse(pred, modules, C01_PATTERNS)
+    items += sitems
+    # the theorems' conclusions evaluated on the REAL output of the modules that meet their hypotheses
     for (cid, opt), detail in static_spec:
         items.append((signature_of_static(detail), f"option set {opt}: {detail[5:300]}", cid, True))
     viol, kn = classify_and_report(pid, items, known, write_replay, case_by_id)
